@@ -2,7 +2,7 @@ CONSTANTS
   Procs = {1}
   MaxObj = 4
   MaxCalls = 2
-  Kinds = {"plain", "ctxval", "probectx", "fail1", "fmtopt", "fail2", "coerce", "custom", "catch"}
+  Kinds = {"plain", "ctxval", "probectx", "fail1", "fmtopt", "fail2", "coerce", "custom", "catch", "nested", "badjson"}
   SwResetCtxMap = TRUE
   SwResetFmter = TRUE
   SwResetErrs = TRUE
@@ -11,6 +11,8 @@ CONSTANTS
   SwTestResetsMsg = TRUE
   SwCoerceResetsMsg = TRUE
   SwCollectOncePerIssue = TRUE
+  SwPoolNewFresh = TRUE
+  SwFrontEndIssueFresh = TRUE
 INIT Init
 NEXT Next
 VIEW View
